@@ -217,8 +217,8 @@ Definition INFLIGHT_SUFFIX : string := ".inflight".
 (* _marker_targets *)
 Definition marker_targets (tp : string) (o : oracle) (g : gst) (nm bn : string) : list key * gst :=
   match do_read o g nm with
-  | (Some (CMarker (Some t)), g1) => if nonempty t then ([normalize_path tp t], g1) else (marker_fallback bn, g1)
-  | (_, g1) => (marker_fallback bn, g1)
+  | (Some (CMarker (Some t)), g1) => if nonempty t then ([normalize_path tp t], g1) else (marker_fallback nm bn, g1)
+  | (_, g1) => (marker_fallback nm bn, g1)
   end.
 
 Fixpoint markers_loop (tp : string) (cutoff : Z) (o : oracle) (g : gst) (ms : list key) (prot : list key)
@@ -405,11 +405,15 @@ Definition referenced (snaps : list string) (st : store) (k : key) : Prop :=
 (* markers *)
 Definition is_marker_key (mk : key) : Prop :=
   startswith (INFLIGHT_PATH ++ "/") mk = true /\ endswith INFLIGHT_SUFFIX (basename mk) = true.
-(* the paths a marker's NAME can denote: "<basename of the protected file>.inflight" is written for data
-   files (data/) and for manifests / manifest lists (metadata/manifests/) alike *)
+(* the paths a marker's KEY can denote.  _register_inflight keys a marker by the WHOLE table-relative path of the file it
+   protects ("metadata/inflight/" ++ path ++ ".inflight"): the key spells the path.  A key that spells no table-relative
+   path is a marker of an older version, "<basename of the protected file>.inflight", written for data files (data/) and
+   for manifests / manifest lists (metadata/manifests/) alike: both are denoted. *)
 Definition name_candidates (mk : key) : list key :=
   let stem := py_drop_end (String.length INFLIGHT_SUFFIX) (basename mk) in
-  ["data/" ++ stem; "metadata/manifests/" ++ stem].
+  let keyed := py_drop_end (String.length INFLIGHT_SUFFIX) (py_drop (String.length (INFLIGHT_PATH ++ "/")) mk) in
+  if startswith "data/" keyed || startswith "metadata/" keyed then [keyed]
+  else ["data/" ++ stem; "metadata/manifests/" ++ stem].
 Definition marker_denotes (mk : key) (o : obj) (k : key) : Prop :=
   match body o with
   | CMarker (Some t) => if nonempty t then k = resolve t else In k (name_candidates mk)
@@ -425,8 +429,8 @@ Record wf_store (snaps : list string) (st : store) : Prop := {
   wf_snaps : forall l, In l snaps -> nonempty l = true -> wf_meta_ref l;
   wf_lists : forall k o ms m, lookup k st = Some o -> as_list (body o) = Some ms -> In m ms -> nonempty m = true -> wf_meta_ref m;
   wf_manifests : forall k o es e, lookup k st = Some o -> as_manifest (body o) = Some es -> In e es -> wf_data_ref e;
-  (* _register_inflight: marker "<basename>.inflight", payload = the table-relative path of a file under
-     data/ or metadata/manifests/ *)
+  (* _register_inflight: marker "metadata/inflight/<path>.inflight", payload = <path>, the table-relative path of the file
+     (markers of older versions: "<basename>.inflight" for a file under data/ or metadata/manifests/) *)
   wf_markers : forall mk o t, lookup mk st = Some o -> is_marker_key mk -> body o = CMarker (Some t) -> nonempty t = true ->
                In (resolve t) (name_candidates mk)
 }.
